@@ -846,11 +846,49 @@ func checkSorted(c *Ctx) {
 		}
 		bad := ""
 		nCallers := 0
+		// a helper outside the vocabulary that fills a set for its caller (and hands it back, in the
+		// manner of append) is a filling function itself: its callers sort
+		viaResult := map[*ssa.Function]bool{}
+		for wi := 0; wi < len(writers); wi++ {
+			w := writers[wi]
+			for _, fn := range c.P.AllLibFuncs() {
+				if len(callsTo(fn, w)) == 0 || !c.P.IsNewHelper(fn) {
+					continue
+				}
+				callsSorter := false
+				for _, so := range sorters {
+					if len(callsTo(fn, so)) > 0 {
+						callsSorter = true
+					}
+				}
+				known := false
+				for _, w2 := range writers {
+					if w2 == fn {
+						known = true
+					}
+				}
+				if !callsSorter && !known {
+					writers = append(writers, fn)
+					if r := fn.Signature.Results(); r.Len() == 1 && typeStr(r.At(0).Type()) == "*rules.clients" {
+						viaResult[fn] = true
+					}
+				}
+			}
+		}
 		for _, w := range writers {
 			for _, fn := range c.P.AllLibFuncs() {
 				sites := callsTo(fn, w)
 				if len(sites) == 0 {
 					continue
+				}
+				lifted := false
+				for _, w2 := range writers {
+					if w2 == fn && c.P.IsNewHelper(fn) {
+						lifted = true
+					}
+				}
+				if lifted {
+					continue // judged at its own callers
 				}
 				nCallers++
 				// a sorter call on some path after every writer call: the sorter call's block must post-dominate... approximate: exists sorter call not inside any loop, reachable from every writer call, and every return reachable from a writer call is reachable only through it
@@ -867,6 +905,11 @@ func checkSorted(c *Ctx) {
 					var recvW ssa.Value
 					if len(site.Common().Args) > 0 {
 						recvW = site.Common().Args[0]
+					}
+					if viaResult[w] {
+						if v, isV := site.(ssa.Value); isV {
+							recvW = v
+						}
 					}
 					for _, sc := range sortCalls {
 						if len(sc.Common().Args) == 0 {
